@@ -92,6 +92,18 @@ func (c *glCtx) expr(e ast.Expr) string {
 		}
 		if v, ok := o.(*types.Var); ok {
 			if !c.declared[v] {
+				if v.Pkg() != nil && v.Parent() == v.Pkg().Scope() {
+					// a package-level byte string with a constant initialiser (`var magic = []byte("…")`)
+					if pp := pkgs[v.Pkg().Path()]; pp != nil {
+						if bs, ok := byteArrayVar(pp, v.Name()); ok {
+							parts := make([]string, len(bs))
+							for i, b := range bs {
+								parts[i] = fmt.Sprint(b)
+							}
+							return fmt.Sprintf("([%s] : List UInt8)", strings.Join(parts, ", "))
+						}
+					}
+				}
 				c.fail(e, "variable %s is not local", x.Name)
 			}
 			return c.nameOf(v)
@@ -275,6 +287,9 @@ func (c *glCtx) arith(op token.Token, l, r string, t, rt types.Type, n ast.Node)
 		return fmt.Sprintf("(%s &&& (%s ^^^ (%s : %s)))", l, r, max, c.lt(t, n))
 	case token.QUO, token.REM:
 		fn := map[token.Token]string{token.QUO: "div", token.REM: "mod"}[op]
+		if isNonzeroLiteral(r) {
+			return fmt.Sprintf("(%s %s %s)", l, binops[op], r)
+		}
 		if b != 64 && b != 32 {
 			c.fail(n, "division on %d-bit operands", b)
 		}
@@ -284,6 +299,23 @@ func (c *glCtx) arith(op token.Token, l, r string, t, rt types.Type, n ast.Node)
 	}
 	c.fail(n, "operator %s", op)
 	return ""
+}
+
+// isNonzeroLiteral: r is a typed literal "(n : T)" with n ≠ 0
+func isNonzeroLiteral(r string) bool {
+	if !strings.HasPrefix(r, "(") || !strings.Contains(r, " : ") {
+		return false
+	}
+	n := strings.TrimSpace(strings.SplitN(r[1:], " : ", 2)[0])
+	if n == "" || n == "0" {
+		return false
+	}
+	for _, ch := range n {
+		if ch < '0' || ch > '9' {
+			return false
+		}
+	}
+	return true
 }
 
 func (c *glCtx) binary(x *ast.BinaryExpr, rt types.Type) string {
@@ -696,6 +728,38 @@ func (c *glCtx) stdlib(qn string, call *ast.CallExpr, n int) ([]string, bool) {
 		t := c.fresh("t")
 		c.emit("let %s := Go.uvarint %s", t, c.expr(call.Args[0]))
 		return []string{t + ".1", t + ".2"}, true
+	case "bytes.NewReader":
+		return []string{fmt.Sprintf("(Go.BytesReader.mk %s 0)", c.expr(call.Args[0]))}, true
+	case "bytes.Reader.Len":
+		se := ast.Unparen(call.Fun).(*ast.SelectorExpr)
+		return []string{fmt.Sprintf("(Go.BytesReader.remaining %s)", c.expr(se.X))}, true
+	case "io.ReadFull":
+		if !isNamed(c.typeOf(call.Args[0]), "bytes", "Reader") {
+			c.fail(call, "io.ReadFull on %s", c.typeOf(call.Args[0]))
+		}
+		rd := c.expr(call.Args[0])
+		buf := c.expr(call.Args[1])
+		t := c.fresh("t")
+		c.emit("let %s ← Go.readFull %s (Go.len %s)", t, rd, buf)
+		c.store(call.Args[0], t+".1")
+		c.store(call.Args[1], t+".2")
+		return []string{fmt.Sprintf("(Go.len %s)", buf)}, true
+	case "bytes.NewBuffer":
+		if id, ok := ast.Unparen(call.Args[0]).(*ast.Ident); ok && id.Name == "nil" {
+			return []string{"([] : List UInt8)"}, true
+		}
+		return []string{c.expr(call.Args[0])}, true
+	case "bytes.Buffer.Grow":
+		return nil, true
+	case "bytes.Buffer.Bytes":
+		se := ast.Unparen(call.Fun).(*ast.SelectorExpr)
+		return []string{c.expr(se.X)}, true
+	case "bytes.Buffer.Write":
+		se := ast.Unparen(call.Fun).(*ast.SelectorExpr)
+		w := c.expr(se.X)
+		b := c.expr(call.Args[0])
+		c.store(se.X, fmt.Sprintf("(%s ++ %s)", w, b))
+		return []string{fmt.Sprintf("(Go.len %s)", b)}, true
 	case "slices.Clip", "bytes.Clone", "slices.Clone":
 		return []string{c.expr(call.Args[0])}, true
 	case "bytes.Equal":
@@ -707,4 +771,12 @@ func (c *glCtx) stdlib(qn string, call *ast.CallExpr, n int) ([]string, bool) {
 func cfParam(c *glCtx, call *ast.CallExpr, i int) types.Type {
 	cf := calleeOf(c.p, call)
 	return cf.Type().(*types.Signature).Params().At(i).Type()
+}
+
+func isNamed(t types.Type, pkg, name string) bool {
+	if p, ok := t.(*types.Pointer); ok {
+		t = p.Elem()
+	}
+	n, ok := t.(*types.Named)
+	return ok && n.Obj().Pkg() != nil && n.Obj().Pkg().Path() == pkg && n.Obj().Name() == name
 }
